@@ -214,6 +214,10 @@ def stage(dest, crate, bytes_model="len", cap=2, qcap=2, max_clients=None, repla
             s = shrink_netcode_consts(s, rel, dict(consts))
         if crate == "renetcode" and contracts and rel == "server.rs":
             s = use_contracts(s)
+        if crate == "renet" and contracts and rel == "remote_connection.rs":
+            s, n = re.subn(r"\bPacket::from_bytes\(", "Packet::verif_from_bytes(", s)
+            if n < 1:
+                raise StageError("contract variant: no call of Packet::from_bytes in remote_connection.rs")
         if crate == "renet" and rel == "packet.rs" and slice_size is not None:
             s, n = re.subn(r"pub const SLICE_SIZE: usize = \d+;", "pub const SLICE_SIZE: usize = %d;" % slice_size, s)
             if n != 1:
